@@ -303,7 +303,7 @@ int apply_low (const char *fun, object_t * ob, int num_arg) {
        *
       if (!entry->progp && entry->id)
        */
-      if (entry->id && entry->name)
+      if (entry->name)
         free_string (entry->name);
 #ifdef CACHE_STATS
       if (!entry->id)
@@ -315,6 +315,15 @@ int apply_low (const char *fun, object_t * ob, int num_arg) {
           apply_low_collisions++;
         }
 #endif
+      /* The slot no longer owns its name.  Leave it empty until it is filled
+       * again below: push_control_stack() can raise "Too deep recursion", and
+       * a slot that still carried the old key and the released name would be
+       * matched with strcmp() and released a second time later on.  (The id
+       * is stored last, so a slot is matched only when it is complete.)
+       */
+      entry->id = 0;
+      entry->name = 0;
+
       sfun = (char *) fun;
       prog = find_function_by_name2 (ob, &sfun, &index, &fio, &vio);
 
@@ -334,7 +343,6 @@ int apply_low (const char *fun, object_t * ob, int num_arg) {
 
               /* The searched function is found, add to APPLY_CACHE */
               entry->oprogp = ob->prog;
-              entry->id = progp->id_number;
               entry->name = ref_string (sfun);
               entry->index = index;
 
@@ -349,6 +357,7 @@ int apply_low (const char *fun, object_t * ob, int num_arg) {
               entry->num_arg = fundefp->num_arg;
               entry->num_local = fundefp->num_local;
               entry->progp = current_prog;
+              entry->id = progp->id_number;	/* last: setup_*_variables() can raise "Stack overflow" */
               previous_ob = current_object;
               current_object = ob;
               opt_trace (TT_EVAL, "calling \"%s\": offset %+d", fun, funp->address);
